@@ -21,7 +21,7 @@ func Spec(tier string, seed uint64, raceBin string) *core.CheckSpec {
 	if raceBin != "" {
 		legs = append(legs, &core.Leg{Name: "history-sim-race", Bin: raceBin, Runs: raceRuns, Offset: 1 << 30,
 			Opt: core.RunOpt{Tier: tier, Leg: "history-sim-race", Params: map[string]string{"always_concurrent": "1"}},
-			Env: core.RaceEnv(), OnWorkerDeath: core.RaceDeath(e, seed)})
+			Env: core.RaceEnv(), OnWorkerDeath: raceAsNote(e, seed)})
 	}
 	return &core.CheckSpec{
 		Engine: e, Tier: tier, Seed: seed, Budget: budget, MaxExec: 3000, Legs: legs,
@@ -38,6 +38,25 @@ func Spec(tier string, seed uint64, raceBin string) *core.CheckSpec {
 			"token comparison is string equality; the readers upper-case tokens before adding, which is C07/C08's business",
 			"the small scope named by the property's quantifier (<= 4 adds, alphabet of 6 tokens, ranges in 1..5, positions 0..6) is SAMPLED, not enumerated; the number of distinct small-scope histories visited is reported",
 		},
+	}
+}
+
+// raceAsNote: a data race inside the suppression structure is a C11 matter
+// (and the C11 check reports it). C16 is about the answers: a race that can
+// make an answer wrong is reachable as a wrong answer by the seeded scheduler,
+// which preempts before every statement of ignoreset.go and codes.go; a race
+// that cannot (a statistics counter) leaves C16 true. So the race build of
+// this check only NOTES races and keeps comparing answers.
+func raceAsNote(e Engine, seed uint64) func(leg *core.Leg, worker, exitCode int, stderr string, lastRun int) (*core.Violation, error) {
+	return func(leg *core.Leg, worker, exitCode int, stderr string, lastRun int) (*core.Violation, error) {
+		if exitCode != core.RaceExit {
+			return nil, nil
+		}
+		sig, _, ok := core.ParseRace(stderr)
+		if !ok {
+			return nil, nil
+		}
+		return &core.Violation{Sig: "NOTE:race", Detail: "the race detector reported unordered conflicting accesses among concurrent readers of the IgnoreSet (" + sig + "); C16 judges answers only - see the C11 check for the race itself"}, nil
 	}
 }
 
